@@ -15,7 +15,7 @@
    unguarded statements are refuted: exogenous_otherwise_refuted, conflict_rejected_refuted). *)
 From Coq Require Import String Ascii List Bool ZArith.
 Import ListNotations.
-Require Import PyBase Symbols Merge ParseEq ParseModel Classify ClassifyFacts ClassifyProgram ClassifyClass ClassifyMain ClassifyRange ClassifyScript ClassifyExamples.
+Require Import PyBase Symbols Merge ParseEq ParseModel Classify ClassifyFacts ClassifyProgram ClassifyClass ClassifyMain ClassifyRange ClassifyScript ClassifyEndToEnd ClassifyExamples.
 Open Scope string_scope.
 
 (* Every script: whatever the syntax-check oracle `chk`, a script that the parser model accepts IS a program (its
@@ -191,3 +191,39 @@ Theorem C03_lags_options_do_not_touch_leads : forall p syms o c lg mlg, wf_progr
   forall c', class_of syms (mkOpts lg (o_leads o) mlg (o_min_leads o)) = Ret c' -> c_leads c' = c_leads c.
 Proof. exact lags_options_do_not_touch_leads. Qed.
 Print Assumptions C03_lags_options_do_not_touch_leads.
+
+(* everything composed, from the text: for every script the parser model accepts, with p its statements after lexing and
+   under the guard of finding #19 — no name in two classes, no endogenous variable with two texts; and for every option
+   set for which the class is built: the four lists, NAMES without duplicates, LAGS and LEADS *)
+Theorem C03_script_end_to_end : forall chk check_syntax model syms, parse_model_M chk check_syntax model = POk syms ->
+  exists p, script_program model = POk p /\ wf_program p = true /\ program_symbols p = Ret syms /\
+    (fn_guard p = true ->
+       (forall a b, In a (amentions p) -> In b (amentions p) -> aname a = aname b -> ~ clash (atype a) (atype b) /\ ~ two_texts a b) /\
+       forall o c, class_of syms o = Ret c ->
+         c_endogenous c = map Some (filter (is_endogenous p) (script_names p)) /\
+         c_exogenous c = map Some (filter (is_exogenous p) (script_names p)) /\
+         c_parameters c = map Some (filter (is_parameter p) (script_names p)) /\
+         c_errors c = map Some (filter (is_error p) (script_names p)) /\
+         NoDup (c_names c) /\
+         (forall z, o_lags o = Some z -> c_lags c = z) /\
+         (o_lags o = None -> exists m, o_min_lags o = Some m /\ c_lags c = Z.max (script_lags p) m) /\
+         (forall z, o_leads o = Some z -> c_leads c = z) /\
+         (o_leads o = None -> exists m, o_min_leads o = Some m /\ c_leads c = Z.max (script_leads p) m)).
+Proof. exact script_end_to_end. Qed.
+Print Assumptions C03_script_end_to_end.
+
+(* the exception class: a name in two classes (every statement well formed, no double definition) -> SymbolError;
+   an endogenous variable with two different equation texts (no name in two classes) -> ParserError *)
+Theorem C03_conflict_gives_SymbolError : forall p a b, wf_program p = true -> fn_guard p = true ->
+  existsb stmt_rejected p = false ->
+  (forall a' b', In a' (amentions p) -> In b' (amentions p) -> aname a' = aname b' -> ~ two_texts a' b') ->
+  In a (amentions p) -> In b (amentions p) -> aname a = aname b -> clash (atype a) (atype b) ->
+  program_symbols p = Raise SymbolError.
+Proof. exact conflict_gives_SymbolError. Qed.
+Print Assumptions C03_conflict_gives_SymbolError.
+Theorem C03_double_definition_gives_ParserError : forall p a b, wf_program p = true -> fn_guard p = true ->
+  (forall a' b', In a' (amentions p) -> In b' (amentions p) -> aname a' = aname b' -> ~ clash (atype a') (atype b')) ->
+  In a (amentions p) -> In b (amentions p) -> aname a = aname b -> two_texts a b ->
+  program_symbols p = Raise ParserError.
+Proof. exact double_definition_gives_ParserError. Qed.
+Print Assumptions C03_double_definition_gives_ParserError.
